@@ -48,6 +48,10 @@ enum Kind {
     AddLackingRequired,
     /// Add (by reference) of a client with a custom credential type that only some members' applications accept
     AddCustomCredential,
+    /// Add of a key package whose init key is not a valid KEM public key (one byte short), correctly signed
+    MalformedInitKey,
+    /// Remove (by reference, from a client that does not check) of a leaf that is already blank
+    RemoveOfBlankLeaf,
 }
 
 #[derive(Clone, Debug)]
@@ -181,6 +185,16 @@ fn run_case(case: &Case, ev: &Evidence) -> CaseResult {
         spec.add.push(p);
     }
     w.commit_round(creator, &spec)?.map_err(|e| setup_failure(P, "initial_commit", &e))?;
+    // sometimes the tree has a blank leaf below populated parents: a member in the middle was removed by a commit with a path
+    let mut blank_leaf: Option<u32> = None;
+    if n >= 5 && case.c(7) % 2 == 0 {
+        let ms = w.members();
+        let victim = ms[1 + pick(case.c(6), ms.len() - 2)];
+        let leaf = w.parties[victim].leaf();
+        if w.commit_round(creator, &CommitSpec { remove: vec![leaf], ..Default::default() })?.is_ok() {
+            blank_leaf = Some(leaf);
+        }
+    }
     for p in 0..w.parties.len() {
         w.parties[p].pstore.put(b"psk0", &[7; 32]);
         w.parties[p].pstore.put(b"psk1", &[8; 32]);
@@ -208,6 +222,8 @@ fn run_case(case: &Case, ev: &Evidence) -> CaseResult {
     let mut by_value_custom: Vec<CustomProposal> = vec![];
     let mut by_value_reinit = false;
     let mut added_candidates: Vec<usize> = vec![];
+    // members in whose name a proposal was forged (made by a discarded clone): they do not hold it themselves
+    let mut forged_from: BTreeSet<usize> = BTreeSet::new();
 
     for op in case.ops.iter().take(8) {
         let kinds = [
@@ -230,6 +246,8 @@ fn run_case(case: &Case, ev: &Evidence) -> CaseResult {
             (Kind::GceRequiresUnsupported, 7),
             (Kind::AddLackingRequired, if w.require_ext { 9 } else { 0 }),
             (Kind::AddCustomCredential, if mixed_credentials { 8 } else { 0 }),
+            (Kind::MalformedInitKey, 5),
+            (Kind::RemoveOfBlankLeaf, if blank_leaf.is_some() && !w.cfg.encrypt_handshake { 9 } else { 0 }),
         ];
         let weights: Vec<u32> = kinds.iter().map(|k| k.1).collect();
         let kind = kinds[pick_weighted(op[0], &weights)].0.clone();
@@ -366,6 +384,70 @@ fn run_case(case: &Case, ev: &Evidence) -> CaseResult {
                     by_value_gce.push(e);
                 } else {
                     by_ref!(Kind::Gce, None, |g: &mut VGroup| g.propose_group_context_extensions(e.clone(), vec![]));
+                }
+            }
+            Kind::RemoveOfBlankLeaf => {
+                invalid_kinds.insert(kind.clone());
+                let Some(bl) = blank_leaf else { continue };
+                if proposer == committer {
+                    continue;
+                }
+                forged_from.insert(proposer);
+                // a genuine Remove of some other member, re-aimed at the blank leaf and re-signed by its sender
+                let Some(target) = members.iter().copied().find(|m| *m != proposer && *m != committer) else { continue };
+                let tleaf = w.parties[target].leaf();
+                let mut clone = w.parties[proposer].g().clone();
+                let genuine = match guard(|| clone.propose_remove(tleaf, vec![])) {
+                    Ok(m) => m.to_bytes().expect("enc"),
+                    Err(_) => continue,
+                };
+                let pp = &w.parties[proposer];
+                let keys = pp.g().verif_epoch_keys();
+                let ctx = pp.g().context().mls_encode_to_vec().expect("ctx");
+                let Some(bytes) = crate::forge::retarget_remove_proposal(suite, &pp.suite_provider(suite), &genuine, bl, &pp.signer, &keys.key_schedule.membership_key, &ctx) else { continue };
+                w.inflight.push(Flight { bytes: bytes.clone(), sender: proposer, sender_leaf: pp.leaf(), kind: FlightKind::Proposal, payload: vec![], aad: vec![], epoch: w.epoch });
+                props.push(Prop { kind: Kind::RemoveOfBlankLeaf, by_value: false, proposer, leaf: Some(bl), encoded: vec![], bytes });
+            }
+            Kind::MalformedInitKey => {
+                invalid_kinds.insert(kind.clone());
+                let party_id = w.new_party();
+                let good = w.key_package(party_id).map_err(|e| setup_failure(P, "key_package", &e))?.to_bytes().expect("enc");
+                // MLSMessage(KeyPackage): version, wire_format, KeyPackage { version, cipher_suite, init_key<V>, leaf_node, extensions<V>, signature<V> }
+                let rebuilt = (|| -> Option<Vec<u8>> {
+                    use crate::refmodel::tls::{put_opaque, Reader};
+                    let mut r = Reader::new(&good);
+                    r.u16()?;
+                    r.u16()?;
+                    let kp_start = r.pos;
+                    r.u16()?;
+                    r.u16()?;
+                    let head_end = r.pos;
+                    let init = r.opaque()?.to_vec();
+                    let leaf_start = r.pos;
+                    crate::refmodel::tree::parse_leaf(&mut r)?;
+                    r.opaque()?;
+                    let tbs_tail_end = r.pos;
+                    let mut tbs = good[kp_start..head_end].to_vec();
+                    put_opaque(&mut tbs, &init[..init.len() - 1]);
+                    tbs.extend_from_slice(&good[leaf_start..tbs_tail_end]);
+                    let mut sc = vec![];
+                    put_opaque(&mut sc, b"MLS 1.0 KeyPackageTBS");
+                    put_opaque(&mut sc, &tbs);
+                    let p = &w.parties[party_id];
+                    let sig = mls_rs::CipherSuiteProvider::sign(&p.suite_provider(suite), &p.signer, &sc).ok()?;
+                    let mut out = good[..kp_start].to_vec();
+                    out.extend_from_slice(&tbs);
+                    put_opaque(&mut out, &sig);
+                    Some(out)
+                })();
+                let Some(bytes) = rebuilt else { continue };
+                let Ok(kp) = MlsMessage::from_bytes(&bytes) else { continue };
+                if want_by_value {
+                    by_value_invalid = true;
+                    by_value_kps.push((kind.clone(), kp));
+                } else {
+                    let kp2 = kp.clone();
+                    by_ref!(kind.clone(), None, |g: &mut VGroup| g.propose_add(kp2.clone(), vec![]));
                 }
             }
             Kind::AddCustomCredential => {
@@ -690,7 +772,7 @@ fn run_case(case: &Case, ev: &Evidence) -> CaseResult {
                 if ra != applied_set {
                     return Err(fail("receiver_reports_different_applied_set", format!("member {m}: {} vs committer {}", ra.len(), applied_set.len())));
                 }
-                if *m != misser && !matches!(d.effect, CommitEffect::ReInit(_)) && ru != committer_unused {
+                if *m != misser && !forged_from.contains(m) && !matches!(d.effect, CommitEffect::ReInit(_)) && ru != committer_unused {
                     return Err(fail("receiver_reports_different_unused_set", format!("member {m}: {} vs committer {}", ru.len(), committer_unused.len())));
                 }
                 if *m == misser && missed_idx.is_some() {
@@ -751,7 +833,7 @@ pub fn run(ctx: &Ctx) -> ! {
         "fresh group of 3-8 members per case; a multiset of up to 8 proposals, each by reference (a real proposal message from a generated member, or a new-member add proposal) or by value, \
          drawn from valid kinds (add, update, remove, external PSK, GCE, custom) and kinds invalid by construction (update from / removal of the committer, self-removal by value, second change of a leaf, \
          unknown PSK, second GCE, ReInit with others, expired / not-yet-valid / wrong-suite key package, credential refused by every member's identity provider, duplicate identity, unregistered custom type, GroupContextExtensions requiring an extension nobody supports, \
-         Add lacking the extension the group requires, Add with a custom credential type only some members accept); \
+         Add lacking the extension the group requires, Add with a custom credential type only some members accept, Add of a correctly signed key package with a malformed init key, a re-signed Remove of an already blank leaf); \
          every receiver caches the proposals in its own order and one receiver misses one. Oracle: (A) a built commit is accepted by every member that has the referenced proposals, with the same applied and \
          unused sets as the committer reports; the member missing a referenced proposal rejects, one missing only an unused proposal accepts; (B) an invalid by-value proposal => build fails and the committer is \
          canonically unchanged; a build must not fail when every by-value proposal is valid; (D) an ordinary follow-up commit by another member is accepted by everybody (dropped proposals leave no trace); (C) the applied set satisfies the RFC 9420 §12.2 set rules (independent checker) and contains nothing invalid by construction. \
